@@ -81,6 +81,35 @@ def conv_call(c):
     return c.item in ('from', 'into', 'clone', 'to_owned', 'into_owned', 'borrow', 'deref') or 'convert::' in (c.trait or '') or (c.trait or '').endswith('Clone')
 
 
+def conversion_problems(ctx, fb, adt):
+    """`From<&DecisionVariable | &Parameter>`: EVERY alternative of the returned value is the monomial of the id
+       Linear::from(x.id)  |  Linear::single_term(x.id, 1.0)  |  Linear::from(x) (the conversion to Linear), possibly
+       wrapped by conversions between function types (`.into()`),
+    and no other field of the operand flows into the result (kind, bound, substituted_value, name ... do not change
+    which polynomial the operand stands for)."""
+    probs = []
+    alts, complete = expr_alts(fb, local_op(0))
+    if not complete or not alts: probs.append('too many / no alternatives for the result')
+    def is_id(t):
+        t = T.strip_wrappers(t)
+        return t[0] == 'place' and t[1] == 1 and [(f) for a, f in t[2]] == ['id'] and _adt_is(t[2][0][0], adt)
+    def is_operand(t):
+        t = T.strip_wrappers(t)
+        return t[0] == 'place' and t[1] == 1 and not t[2]
+    for e in alts:
+        t = e
+        while t[0] == 'call' and t[1] in ('into', 'from') and len(t[3]) == 1 and t[3][0][0] == 'call': t = t[3][0]
+        ok = False
+        if t[0] == 'call' and t[1] == 'from' and re.search(r'From<u64> for v1::Linear', t[2]) and is_id(t[3][0]): ok = True
+        elif t[0] == 'call' and t[1] == 'single_term' and len(t[3]) == 2 and is_id(t[3][0]) and t[3][1][0] == 'const' and T.f64_const(t[3][1][1]) == 1.0: ok = True
+        elif t[0] == 'call' and t[1] == 'from' and re.search(r"From<&('\w+ )?%s> for v1::Linear" % re.escape(adt), t[2]) and is_operand(t[3][0]): ok = True
+        if not ok: probs.append('a path returns %s' % T.expr_str(e, 3))
+    rs = ctx.S.backslice(fb, [0], depth=0)
+    other = sorted({f for a, f in rs.fields if _adt_is(a, adt) and f != 'id'})
+    if other: probs.append('the result depends on the operand\'s field(s) %s' % other)
+    return probs
+
+
 def deleg_rules(ctx, impls):
     R = 'C02.deleg'
     decided = 0
@@ -161,14 +190,17 @@ def deleg_rules(ctx, impls):
         ctx.check(not probs, rid, 'T-DELEG', b.name, '; '.join(probs), b.site(), calls=kinds)
     ctx.floor(R, 100)
     # conversions used by the delegations keep the id
+    # conversions used by the delegations: a variable / parameter is the monomial 1.0 * x_id, whatever else it carries
     for ty in ('&v1::Parameter', '&v1::DecisionVariable'):
-        fb = ctx.F.one('v1::Linear', 'from', trait='From', targs=[ty])
-        if fb is None:
-            ctx.lost('C02.from/' + ty, 'From<%s> for Linear' % ty); continue
-        ctx.fn(fb)
-        s = ctx.S.backslice(fb, [0])
         adt = ty.lstrip('&')
-        ctx.check(s.has_field(adt, 'id') and (s.has_const(r'^1f64$') or s.has_call(r'From<u64> for v1::Linear')), 'C02.from/' + ty, 'T-CARRY', fb.name, 'Linear::from(%s) is not the single term 1.0 * x_id' % ty, fb.site())
+        for target in ('v1::Linear', 'v1::Quadratic', 'v1::Polynomial', 'v1::Function'):
+            fb = ctx.F.one(target, 'from', trait='From', targs=[ty])
+            rid = 'C02.from/' + ty + ('' if target == 'v1::Linear' else '->' + target.split('::')[-1])
+            if fb is None:
+                ctx.lost(rid, 'From<%s> for %s' % (ty, target)); continue
+            ctx.fn(fb)
+            probs = conversion_problems(ctx, fb, adt)
+            ctx.check(not probs, rid, 'T-CARRY', fb.name, '%s::from(%s) is not the single term 1.0 * x_id on every path, built from the id alone: %s' % (target.split('::')[-1], ty, '; '.join(probs)), fb.site())
     fb = ctx.F.one('v1::Linear', 'from', trait='From', targs=['u64'])
     if fb is not None:
         ex = [c for c in fb.calls if c.item == 'single_term']
@@ -1128,6 +1160,57 @@ def feeds_canonicalising_consumer(ctx, b, map_local):
     return False
 
 
+# ---- which component of the map entries a vector holds ------------------------------------------
+# equivalent ways of splitting `map: {(a, b) -> v}` into vectors (one comment per idiom):
+#   for ((a, b), v) in map { xs.push(a); ys.push(b); vs.push(v) }          loop with pushes (also what the normal form
+#                                                                          makes of `map.iter().map(|..| ..).collect()`)
+#   let (ks, vs) = map.into_iter().unzip(); let (xs, ys) = ks.into_iter().unzip()     unzip: component k of every item
+#   map.keys() / into_keys() = component 0, map.values() / into_values() = component 1, `.collect()` of those
+ITEM_PREFIX = {'keys': ('0',), 'into_keys': ('0',), 'values': ('1',), 'into_values': ('1',), 'values_mut': ('1',)}
+
+
+def element_sig(ctx, b, operand, _depth=0):
+    """tuple-component path, relative to the entries of the map they come from, of the elements of the collection
+    `operand` (('0','1') = second component of the key, ('1',) = the value); None if not recognised"""
+    if _depth > 6 or operand['k'] not in ('copy', 'move'): return None
+    root = T.access_path(b, operand, transparent=T.TRANSPARENT_NOCLONE)[1]
+    pushes = [c for c in b.calls if c.item in ('push', 'push_back') and c.args and T.access_path(b, c.args[0], transparent=T.TRANSPARENT_NOCLONE)[1] == root and root is not None]
+    if pushes:
+        sigs = set()
+        for c in pushes:
+            path = tuple(f for a, f in T.expr_fields(T.expr(b, c.args[1], depth=10)) if a == 'tuple')
+            L = innermost_loop(loops_of(ctx, b), c.bb)
+            pre = ()
+            if L is not None:
+                for x in L['it'].call_objs:
+                    if x.item in ITEM_PREFIX and MAP_RE.search(x.name): pre = ITEM_PREFIX[x.item]
+            sigs.add(pre + path)
+        return sigs.pop() if len(sigs) == 1 else None
+    return _sig_tree(ctx, b, _expr_env(b, operand, {}, set(), 24, frozenset()))
+
+
+def _sig_tree(ctx, b, t, _depth=0):
+    if _depth > 8: return None
+    t = T.strip_wrappers(t)
+    if t[0] == 'proj' and t[1][0] == 'call' and t[1][1] == 'unzip' and t[2] and t[2][0][0] == 'tuple' and t[1][3]:
+        base = _sig_iter(ctx, b, t[1][3][0], _depth + 1)
+        return None if base is None else base + (t[2][0][1],)
+    if t[0] == 'call' and t[1] in ('collect', 'from_iter') and t[3]: return _sig_iter(ctx, b, t[3][0], _depth + 1)
+    return None
+
+
+def _sig_iter(ctx, b, t, _depth):
+    """component path of the ITEMS of an iterator tree"""
+    t = T.strip_wrappers(t)
+    if t[0] != 'call' or not t[3]: return None
+    if t[1] in ITEM_PREFIX and MAP_RE.search(t[2]): return ITEM_PREFIX[t[1]]
+    if t[1] in ('cloned', 'copied', 'rev', 'by_ref'): return _sig_iter(ctx, b, t[3][0], _depth + 1)
+    if t[1] in ('into_iter', 'iter', 'iter_mut', 'drain'):
+        if MAP_RE.search(t[2]): return ()                      # the entries of the map themselves
+        return _sig_tree(ctx, b, t[3][0], _depth + 1)          # the elements of another collection
+    return None
+
+
 def every_pair(ctx, b, sites):
     """the add sites lie in a loop nest over both operands: inner loop merges every item, and every pass
     through the outer loop's body runs the inner loop; neither iterator is restricted"""
@@ -1202,17 +1285,13 @@ def keys_rules(ctx):
             if v != 'ordered': ok = False; why = v
         ctx.check(ok, R + '/Quadratic::from_iter/canonical-and-merged', 'T-CARRY', b.name, 'entries are not keyed by the ordered pair and merged by addition (%s)' % why, b.site())
         aggs = find_aggregates(b, 'v1::Quadratic')
-        okp = False
+        okp = bool(aggs); whyp = 'no Quadratic is built'
         for bi, st in aggs:
             d = dict(zip(st['rv']['fields'], st['rv']['ops']))
-            roots = {f: T.access_path(b, d[f], transparent=T.TRANSPARENT_NOCLONE)[1] for f in ('rows', 'columns', 'values')}
-            pushed = {}
-            for c in b.calls:
-                if c.item == 'push':
-                    r = T.access_path(b, c.args[0], transparent=T.TRANSPARENT_NOCLONE)[1]
-                    pushed[r] = [f for a, f in T.expr_fields(T.expr(b, c.args[1], depth=10)) if a == 'tuple']
-            okp = pushed.get(roots['rows'], [None])[:2] != pushed.get(roots['columns'], [None])[:2] and all(roots[f] in pushed for f in roots) and len(set(roots.values())) == 3
-        ctx.check(okp, R + '/Quadratic::from_iter/rows-columns', 'T-CARRY', b.name, 'rows and columns are not filled from the two components of the key', b.site())
+            sig = {f: element_sig(ctx, b, d[f]) for f in ('rows', 'columns', 'values')}
+            good = None not in sig.values() and {sig['rows'][:2], sig['columns'][:2]} == {('0', '0'), ('0', '1')} and sig['values'][:1] == ('1',)
+            if not good: okp = False; whyp = 'components of the map entries: %s' % {f: ('.'.join(v) if v is not None else '?') for f, v in sig.items()}
+        ctx.check(okp, R + '/Quadratic::from_iter/rows-columns', 'T-CARRY', b.name, 'rows and columns are not filled from the two components of the key, values from the merged value (%s)' % whyp, b.site())
     # Quadratic*Quadratic and Polynomial*Polynomial: ids = id_r + id_l, value_l*value_r, every pair
     for ty in ('v1::Quadratic', 'v1::Polynomial'):
         b = ctx.F.one(ty, 'mul', trait='Mul', targs=[ty])
@@ -1299,6 +1378,63 @@ def merge_rule(ctx, b, rid, ty, term_adt, keyf, valf):
     ctx.check(not probs, rid, 'T-BRANCHFX', b.name, 'terms of both operands are not merged by `map[key] += coefficient` for every term: ' + '; '.join(probs), b.site())
 
 
+def key_is_raw(b, key_operand):
+    """the key is the position as stored (possibly with its components in another FIXED order): one alternative, every
+    component a plain projection of the item -- no min/max/sort/comparison-dependent choice.  Such a key map is
+    injective; anything else may send two stored positions to the same key."""
+    if key_operand is None: return False
+    alts, complete = expr_alts(b, key_operand)
+    if not complete or len(alts) != 1: return False
+    t = T.strip_wrappers(alts[0])
+    comps = t[2] if (t[0] == 'agg' and t[1] == 'tuple') else [t]
+    paths = []
+    for c in comps:
+        c = T.strip_wrappers(c)
+        if c[0] not in ('place', 'proj'): return False
+        paths.append(tuple(f for a, f in c[2] if a == 'tuple'))
+    return len(set(paths)) == len(paths)
+
+
+def quad_merge_rule(ctx, b, rid):
+    """Quadratic + Quadratic: the (row, column) entries of both operands reach the map the result is built from.
+    One operand may be LOADED without accumulation (collect / insert), but only under keys that cannot collide -- the
+    positions as stored (no duplicated positions in a valid operand); as soon as the key is transformed by a map that is
+    not injective (ordering by min/max, a conditional swap, sorting) two stored positions (i,j), (j,i) can meet and every
+    insertion must be an accumulating one.  The other operand is merged by `+=` on every iteration."""
+    sites = accum_sites(ctx, b); loops = loops_of(ctx, b); rs = ctx.S.backslice(b, [0])
+    probs = []; merged = set(); loaded = set()
+    for L in loops:
+        ps = L['it'].params & {1, 2}
+        if not ps: continue
+        touching = [x for x in sites if x['bb'] in L['blocks'] and innermost_loop(loops, x['bb']) is L]
+        if not touching or any(x['map'] is not None and x['map'] not in rs.locals for x in touching): continue
+        if restricted(L['it']): probs.append('the loop over the entries is restricted by %s' % restricted(L['it']))
+        ok, adds = loop_merges(b, L, sites)
+        over = [x for x in touching if x['kind'] == 'overwrite']
+        if ok and not over: merged |= ps; continue
+        if over and len(over) == len(touching):
+            if all(key_is_raw(b, x['key']) for x in over): loaded |= ps
+            else: probs.append('entries of operand %s are inserted without accumulation under a transformed key (ordered / swapped by comparison): two stored positions that collide overwrite each other' % sorted(ps))
+            continue
+        probs.append('entries of operand %s are put into the map without `+=`' % sorted(ps))
+    for c in b.calls:
+        # a whole iterator handed to collect / from_iter / extend of a map: loaded without accumulation
+        if c.item not in ('collect', 'from_iter', 'extend') or not c.args: continue
+        if c.item == 'extend': into = b.locals[c.args[0]['pl']['l']] if c.args[0]['k'] in ('copy', 'move') else ''
+        else: into = b.locals[c.dst['l']]
+        if not re.match(r'(&mut )?std::collections::(BTreeMap|HashMap)<', into.strip()): continue        # the destination is a map
+        it = ctx.S.slice_operand(b, c.args[-1])
+        ps = it.params & {1, 2}
+        if not ps: continue
+        hidden = sorted({x.item for x in it.call_objs if x.item in ('map', 'filter_map', 'flat_map', 'scan') and 'Iterator' in (x.trait or '')})
+        if hidden: probs.append('entries of operand %s go through %s before a non-accumulating %s: the key cannot be seen' % (sorted(ps), hidden, c.item))
+        else: loaded |= ps
+    if not probs:
+        if (merged | loaded) != {1, 2}: probs.append('entries of operand(s) %s never reach the map' % sorted({1, 2} - merged - loaded))
+        elif len(loaded - merged) > 1: probs.append('both operands are loaded without accumulation: equal positions of the two operands are not added')
+    ctx.check(not probs, rid, 'T-BRANCHFX', b.name, 'the quadratic entries of both operands are not merged exactly: ' + '; '.join(probs), b.site(), merged=sorted(merged), loaded=sorted(loaded))
+
+
 def constant_rule(ctx, b, rid):
     """constant of Linear + Linear is self.constant + rhs.constant — in the aggregate built here, or
     handed to a constructor that stores its parameter verbatim"""
@@ -1368,6 +1504,10 @@ def kernel_rules(ctx):
         merge_rule(ctx, b, R + '/%s+%s/merge' % (short, short), ty, term_adt, keyf, valf)
         if ty == 'v1::Linear':
             constant_rule(ctx, b, R + '/Linear+Linear/constant')
+    b = ctx.F.one('v1::Quadratic', 'add', trait='Add', targs=['v1::Quadratic'])
+    if b is None: ctx.lost(R + '/Quadratic+Quadratic', 'Add')
+    else:
+        ctx.fn(b); quad_merge_rule(ctx, b, R + '/Quadratic+Quadratic/merge')
     for ty, adt, fld in (('v1::Linear', 'v1::linear::Term', 'coefficient'), ('v1::Polynomial', 'v1::Monomial', 'coefficient'), ('v1::Quadratic', 'v1::Quadratic', 'values')):
         b = ctx.F.one(ty, 'mul', trait='Mul', targs=['f64'])
         if b is None: ctx.lost(R + '/%s*f64' % ty, 'Mul<f64>'); continue
@@ -1385,7 +1525,7 @@ def kernel_rules(ctx):
         okz = bool(Ls) and T.must_pass(b, 0, return_blocks(b), via)
         ctx.check(okz, R + '/%s*f64/only-exact-zero-shortcut' % short, 'T-GUARD', b.name,
                   'the function is returned without scaling under %s, not only for a scalar that is exactly 0' % (other or 'some condition'), b.site())
-    ctx.floor(R, 9)
+    ctx.floor(R, 10)
 
 
 # =============================================================================== C02.sorted
